@@ -237,7 +237,7 @@ def _run_one(job):
     return res
 
 
-def run(prop, root, jobs=16, out=print):
+def run(prop, root, jobs=16, out=print, write=True):
     variants = load_variants(prop)
     if not variants:
         out("%s selftest: no variants defined" % prop)
@@ -269,7 +269,7 @@ def run(prop, root, jobs=16, out=print):
         prop, summary["detected"], summary["positive_controls"], summary["quiet"], summary["negative_controls"],
         len(skipped), summary["wall_s"]))
     ev_path = os.path.join(report.EVIDENCE_DIR, prop + ".json")
-    if os.path.exists(ev_path) and os.path.abspath(root) == "/repo":
+    if write and os.path.exists(ev_path) and os.path.abspath(root) == "/repo":
         try:
             ev = json.load(open(ev_path))
             ev["coverage"]["selftest"] = summary
